@@ -117,6 +117,15 @@ impl BlockDecoder {
             section.compressed_size
         );
 
+        // A block must not regenerate more than MAX_BLOCK_SIZE bytes, so its literals can not either.
+        // Without this check a few header bytes can demand a megabyte of (RLE) literals.
+        if section.regenerated_size > MAX_BLOCK_SIZE {
+            return Err(DecompressBlockError::LiteralsTooLarge {
+                regenerated_size: section.regenerated_size as usize,
+                max: MAX_BLOCK_SIZE as usize,
+            });
+        }
+
         let upper_limit_for_literals = match section.compressed_size {
             Some(x) => x as usize,
             None => match section.ls_type {
